@@ -51,6 +51,13 @@ def build_nodes(V, cfg, SymDist, tag=""):
     n, edges, skips = cfg["n"], cfg["edges"], cfg["skips"]
     nd = [V.grid(f"nd{i}", lo=0, hi=1) for i in range(n)]
     cd = {e: V.grid(f"cd{e[0]}_{e[1]}", lo=0, hi=1) for e in edges}
+    if cfg.get("explicit"):
+        # expected delays given explicitly (any value in [0,1], including exactly 0) and different from the distributions' percentiles
+        nodes = [BaseNode(name=f"n{i}", rate=10 + i, delay=nd[i], delay_dist=SymDist(qv=V.grid(f"nq{i}", lo=0, hi=1), tag=f"n{i}")) for i in range(n)]
+        for (i, j), sk in zip(edges, skips):
+            nodes[j].connect(nodes[i], blocking=cfg.get("blocking", False), delay=cd[(i, j)], delay_dist=SymDist(qv=V.grid(f"cq{i}_{j}", lo=0, hi=1), tag=f"c{i}{j}"),
+                             window=1 + (i + j) % 2, skip=sk)
+        return nodes, nd, cd
     nodes = [BaseNode(name=f"n{i}", rate=10 + i, delay_dist=SymDist(qv=nd[i], tag=f"n{i}")) for i in range(n)]
     for (i, j), sk in zip(edges, skips):
         nodes[j].connect(nodes[i], blocking=cfg.get("blocking", False), delay_dist=SymDist(qv=cd[(i, j)], tag=f"c{i}{j}"), window=1 + (i + j) % 2, skip=sk)
@@ -102,6 +109,8 @@ def scen_phase(cfg):
             c = nodes[j].inputs[f"n{i}"]
             ok_cphase.append(_close(V, c.phase, nodes[i].phase + nd[i] + cd[(i, j)]))
         res["node phase == longest expected-delay path over non-skipped connections (0 for sources)"] = _allv(V, ok_phase)
+        res["the configured expected delays are the ones nodes, connections and infos report"] = _allv(V, [_close(V, nodes[t].delay, nd[t]) for t in range(n)] + [_close(V, nodes[j].inputs[f"n{i}"].delay, cd[(i, j)]) for (i, j) in edges]
+                                                                                                        + [_close(V, nodes[j].info.inputs[f"n{i}"].delay, cd[(i, j)]) for (i, j) in edges])
         res["phase_output == phase + expected computation delay; connection phase == sender phase_output + expected connection delay"] = _allv(V, ok_out + ok_cphase)
         # set_delay(delay=..) takes effect downstream
         new = V.grid("new_delay", lo=0, hi=1)
@@ -268,11 +277,12 @@ def configs(tier):
             labellings = list(itertools.product([False, True], repeat=len(es)))
             if len(labellings) > 4:
                 labellings = [labellings[0], labellings[-1]] + labellings[1:-1][:: max(1, (len(labellings) - 2) // 3)][:3]
-            for sk in labellings:
-                out.append(dict(scen="phase", n=n, edges=list(es), skips=list(sk)))
+            for li, sk in enumerate(labellings):
+                out.append(dict(scen="phase", n=n, edges=list(es), skips=list(sk), explicit=(li % 2 == 1) or len(es) == 1))
     out.append(dict(scen="set_dist"))
     for es in (((0, 1),), ((0, 1), (1, 2), (0, 2))):
-        out.append(dict(scen="info", n=max(max(e) for e in es) + 1, edges=list(es), skips=[False] * (len(es) - 1) + [True] if len(es) > 1 else [False], blocking=len(es) > 1))
+        for explicit in (False, True):
+            out.append(dict(scen="info", n=max(max(e) for e in es) + 1, edges=list(es), skips=[False] * (len(es) - 1) + [True] if len(es) > 1 else [False], blocking=len(es) > 1, explicit=explicit))
     out += [dict(scen="default", what="node"), dict(scen="default", what="connection"), dict(scen="cycle", skip=False), dict(scen="cycle", skip=True)]
     return out
 
